@@ -151,3 +151,11 @@ Definition py_int_hex (s : list Z) : res Z :=
 Definition py_int_char (c : Z) : res Z :=
   if (48 <=? c) && (c <=? 57) then Ok (c - 48)
   else if (0 <=? c) && (c <? 128) then Err ValueError else Err Unmodelled.
+
+(* ---- for loop with early exit (a `return` in the body): the body yields
+        inl state = go on  |  inr value = the function returns value ------------------------- *)
+Fixpoint for_ret {A S T} (l : list A) (s : S) (f : S -> A -> res (S + T)) : res (S + T) :=
+  match l with
+  | [] => Ok (inl s)
+  | x :: r => bind (f s x) (fun o => match o with inl s' => for_ret r s' f | inr v => Ok (inr v) end)
+  end.
